@@ -14,10 +14,11 @@
 // the "C12-ROUND" lines on stderr attribute a report to the (seed, round, mix).
 //
 // Case lines (judged by coq/model/Check12.v):
-//   1201 kind G P calls equal inputs_ok descs_ok retained_ok     one per (round, op kind)
-//   1202 input_before input_after later_output view_before view_after   thrift  NewBinaryProtocol(buf)+Recycle scenario
-//   1203 input_before input_after later_output                           proto   NewBinaryProtol(buf)+Recycle scenario
-//   1204 kind calls leaked_ok                                             error exits do not poison the pools (sequential)
+//
+//	1201 kind G P calls equal inputs_ok descs_ok retained_ok     one per (round, op kind)
+//	1202 input_before input_after later_output view_before view_after   thrift  NewBinaryProtocol(buf)+Recycle scenario
+//	1203 input_before input_after later_output                           proto   NewBinaryProtol(buf)+Recycle scenario
+//	1204 kind calls leaked_ok                                             error exits do not poison the pools (sequential)
 package main
 
 import (
@@ -70,6 +71,23 @@ struct Inner {
     19: map<string, Inner> MSI,
 }
 
+struct InnerR {
+    1: bool B,
+    2: byte Y,
+    3: i16 I16,
+    4: i32 I32,
+    5: i64 I64,
+    6: double D,
+    7: string S,
+    8: list<i32> L,
+    9: map<string, string> M,
+    10: set<i32> St,
+    12: map<i32, string> MI,
+    13: binary Bin,
+    18: list<InnerR> LI,
+    19: map<string, InnerR> MSI,
+}
+
 struct Req {
     1: optional string Msg (go.tag = "json:\"msg\""),
     2: optional double Cookie (api.cookie = "cookie"),
@@ -90,7 +108,7 @@ struct Resp {
     3: required i32 Status (api.http_code = "status"),
     4: optional bool Header (api.header = "heeader"),
     6: i64 Code (api.js_conv = ""),
-    7: Inner Inner,
+    7: InnerR Inner,
     9: i32 Def = 42,
     32767: double Subfix,
 }
@@ -192,6 +210,7 @@ type c12out struct {
 	err  bool     // returned a non-nil error / error node
 	pan  bool     // panicked
 	keep [][]byte // the slices actually handed to the caller (retention: must stay intact)
+	msg  string   // diagnostics only (never compared)
 }
 
 func (a *c12out) same(b *c12out) bool {
@@ -216,8 +235,7 @@ var c12kindNames = map[int]string{
 func c12call(f func() c12out) (o c12out) {
 	ok, msg := noPanic(func() { o = f() })
 	if !ok {
-		o = c12out{pan: true, data: []byte("panic")}
-		_ = msg
+		o = c12out{pan: true, data: []byte("panic"), msg: msg}
 	}
 	return
 }
@@ -330,6 +348,14 @@ type c12world struct {
 	dumps    []func() []byte // descriptor dumps
 	dump0    [][]byte
 	unstable int // ops whose two alone-runs differed (dropped)
+}
+
+// descriptor dumps are taken when the descriptor is registered, i.e. before any operation has seen it
+func (w *c12world) addDump(fs ...func() []byte) {
+	for _, f := range fs {
+		w.dumps = append(w.dumps, f)
+		w.dump0 = append(w.dump0, f())
+	}
 }
 
 func (w *c12world) addOp(kind int, name string, fail bool, run func() c12out) {
@@ -526,7 +552,7 @@ func c12buildWorld(r *rng) *c12world {
 	reqDesc := fnM.Request().Struct().FieldById(1).Type()
 	respDesc := fnM.Response().Struct().FieldById(0).Type()
 	smallDesc := svc.Functions()["S"].Request().Struct().FieldById(1).Type()
-	w.dumps = append(w.dumps, func() []byte { return c12dumpThriftDesc(reqDesc) }, func() []byte { return c12dumpThriftDesc(respDesc) },
+	w.addDump(func() []byte { return c12dumpThriftDesc(reqDesc) }, func() []byte { return c12dumpThriftDesc(respDesc) },
 		func() []byte { return c12dumpThriftDesc(smallDesc) },
 		func() []byte { return c12dumpThriftDesc(fnM.Request()) }, func() []byte { return c12dumpThriftDesc(fnM.Response()) })
 
@@ -657,6 +683,18 @@ func c12buildWorld(r *rng) *c12world {
 			generic.FreePathNode(pn)
 			return c12out{data: out, err: err != nil, keep: [][]byte{out}}
 		})
+		// a DOM tree loaded ONCE and shared read-only by all goroutines
+		sharedPN := &generic.PathNode{Node: generic.NewNode(thrift.STRUCT, tb)}
+		if err := sharedPN.Load(true, gopts); err == nil {
+			w.addOp(12, fmt.Sprintf("thrift.PathNode(shared).Marshal doc%d", d), false, func() c12out {
+				out, err := sharedPN.Marshal(gopts)
+				var sb []byte
+				for i := range sharedPN.Next {
+					sb = append(sb, sharedPN.Next[i].Node.Raw()...)
+				}
+				return c12out{data: c12cat(out, sb), err: err != nil, keep: [][]byte{out}}
+			})
+		}
 		w.addOp(13, fmt.Sprintf("thrift.MarshalTo doc%d", d), false, func() c12out {
 			out, err := generic.NewValue(reqDesc, tb).MarshalTo(smallDesc, gopts)
 			return c12out{data: out, err: err != nil, keep: [][]byte{out}}
@@ -716,6 +754,37 @@ func c12buildWorld(r *rng) *c12world {
 		})
 	}
 
+	// j2t HTTP with an EMPTY body: the pooled-bitmap path of j2t (conv/j2t/impl.go:48-78), ok and failing variants
+	{
+		hj := j2t.NewHTTPConv(meta.EncodingThriftBinary, fnM)
+		for k := 0; k < 4; k++ {
+			k := k
+			hopts := conv.Options{EnableValueMapping: true, EnableHttpMapping: true, WriteRequireField: k%2 == 0, ReadHttpValueFallback: k >= 2, WriteDefaultField: k == 3}
+			url := "http://localhost:8080/p?query=a,b&inner_s=qq&Big=77&Code=5"
+			if k == 1 {
+				url = "http://localhost:8080/p" // required values missing: error exit that leaks the bitmap
+			}
+			w.addOp(5, fmt.Sprintf("j2t.HTTPConv.Do empty-body %d", k), k == 1, func() c12out {
+				sr, err := stdhttp.NewRequest("POST", url, strings.NewReader("")) // a nil Body makes HTTPRequest.GetBody panic (not C12's business)
+				if err != nil {
+					return c12out{err: true, data: []byte("newrequest")}
+				}
+				sr.Header.Set("heeader", "true")
+				sr.AddCookie(&stdhttp.Cookie{Name: "cookie", Value: "2.5"})
+				var params []dhttp.Param
+				if k != 1 {
+					params = append(params, dhttp.Param{Key: "path", Value: "from-path"})
+				}
+				req, err := dhttp.NewHTTPRequestFromStdReq(sr, params...)
+				if err != nil {
+					return c12out{err: true, data: []byte("wrap")}
+				}
+				out, err := hj.Do(ctx, req, hopts)
+				return c12out{data: out, err: err != nil, keep: [][]byte{out}}
+			})
+		}
+	}
+
 	// t2j HTTP: a REPLY message around a Resp struct (built alone with j2t on the Resp descriptor)
 	ht := t2j.NewHTTPConv(meta.EncodingThriftBinary, fnM)
 	for d := 0; d < 3; d++ {
@@ -735,7 +804,7 @@ func c12buildWorld(r *rng) *c12world {
 			resp.StatusCode = 200
 			err := ht.Do(ctx, resp, mb, hopts)
 			if err != nil {
-				return c12out{err: true}
+				return c12out{err: true, msg: err.Error()}
 			}
 			var body []byte
 			if resp.Response.Body != nil {
@@ -789,7 +858,7 @@ func c12buildWorld(r *rng) *c12world {
 		if err != nil {
 			continue
 		}
-		w.dumps = append(w.dumps, func() []byte { return c12dumpThriftDesc(td) })
+		w.addDump(func() []byte { return c12dumpThriftDesc(td) })
 		for d := 0; d < 3; d++ {
 			val := g.genValue(root, 0)
 			tb := w.in.add(fmt.Sprintf("rand-thrift-%d-%d", k, d), val.encode(nil))
@@ -829,14 +898,14 @@ func c12buildWorld(r *rng) *c12world {
 	pReq := psvc.LookupMethodByName("M").Input()
 	pNest := psvc.LookupMethodByName("F").Input()
 	pSmall := psvc.LookupMethodByName("S").Input()
-	w.dumps = append(w.dumps, func() []byte { return c12dumpProtoDesc(pReq) }, func() []byte { return c12dumpProtoDesc(pNest) }, func() []byte { return c12dumpProtoDesc(pSmall) })
+	w.addDump(func() []byte { return c12dumpProtoDesc(pReq) }, func() []byte { return c12dumpProtoDesc(pNest) }, func() []byte { return c12dumpProtoDesc(pSmall) })
 	j2pcv := j2p.NewBinaryConv(conv.Options{})
 	p2jcv := p2j.NewBinaryConv(conv.Options{})
 	j2pcvp, p2jcvp := &j2pcv, &p2jcv
 	popts := &pgeneric.Options{}
 	type pdoc struct {
-		desc *proto.TypeDescriptor
-		js   string
+		desc  *proto.TypeDescriptor
+		js    string
 		trunc bool
 	}
 	var pdocs []pdoc
@@ -887,6 +956,16 @@ func c12buildWorld(r *rng) *c12world {
 			out, err := pn.Marshal(popts)
 			return c12out{data: out, err: err != nil, keep: [][]byte{out}}
 		})
+		{
+			v := pgeneric.NewRootValue(desc, pb)
+			sharedPN := &pgeneric.PathNode{Node: v.Node}
+			if err := sharedPN.Load(true, popts, desc); err == nil {
+				w.addOp(16, fmt.Sprintf("proto.PathNode(shared).Marshal doc%d", d), false, func() c12out {
+					out, err := sharedPN.Marshal(popts)
+					return c12out{data: out, err: err != nil, keep: [][]byte{out}}
+				})
+			}
+		}
 		w.addOp(15, fmt.Sprintf("proto.Interface doc%d", d), false, func() c12out {
 			v := pgeneric.NewRootValue(desc, pb)
 			iv, err := v.Interface(&pgeneric.Options{MapStructById: true})
@@ -974,8 +1053,10 @@ func c12buildWorld(r *rng) *c12world {
 		w.oracle = append(w.oracle, a)
 	}
 	w.ops = ops
-	for _, f := range w.dumps {
-		w.dump0 = append(w.dump0, f())
+	if os.Getenv("C12_LIST") != "" {
+		for i, op := range w.ops {
+			fmt.Fprintf(os.Stderr, "C12-OP %d kind=%d fail=%v err=%v panic=%v len=%d %s %s\n", i, op.kind, op.fail, w.oracle[i].err, w.oracle[i].pan, len(w.oracle[i].data), op.name, w.oracle[i].msg)
+		}
 	}
 	return w
 }
